@@ -339,6 +339,63 @@ def arrays_qn(mpo):
     return was_list
 
 
+def probe_swap_sequences(run):
+    """two fixed, minimal swap sequences (found by the random search and shrunk) so that the two assertion findings of
+    Mpo.try_swap_site are reported on every run and with a small replay, not only when the random sequences hit them"""
+    # (1) default ("qr") MPO of  Z0 Z3 + Z0 + Z1 + Z2 + Z3 ; exchange (1,2) then (0,1)
+    sites = [L.Site("spin", f"s{i}", 2, [(0,), (0,)]) for i in range(4)]
+    terms = [(1.0, [(0, "sigma_z"), (3, "sigma_z")])] + [(1.0, [(i, "sigma_z")]) for i in range(4)]
+    tm1 = L.TModel(sites, terms, "spin")
+    # (2) Jordan-Wigner model of 3 orbitals with (02|02) = (02|22) = 1 ; fermionic exchange (1,2) then (0,1)
+    eri = np.zeros((3,) * 4)
+    for (p, q, r, t) in [(0, 2, 0, 2), (0, 2, 2, 2)]:
+        for idx in [(p, q, r, t), (q, p, r, t), (p, q, t, r), (q, p, t, r), (r, t, p, q), (t, r, p, q), (r, t, q, p), (t, r, q, p)]:
+            eri[idx] = 1.0
+    tm2 = L.qc_tmodel(np.zeros((3, 3)), eri, True, "8", "probe")
+    tm2.extra["symbols"] = "+,-,Z"
+    if not jw_effective(tm2):
+        tm2.lib_terms = rename_sigma(tm2.lib_terms)
+        tm2.label = "qc-sigma"
+        tm2.extra["symbols"] = "sigma_+,sigma_-,sigma_z"
+    # (3) qc_model output for 2 orbitals as it is, one fermionic exchange (1,2): the operator must change by the
+    #     fermionic swap (the state side of OFS, Mps._update_mps, applies the sign)
+    h3 = np.array([[0.3, 0.7], [0.7, -0.2]])
+    eri3 = L.symmetrise_eri(np.arange(16, dtype=float).reshape(2, 2, 2, 2) / 10 + 0.1, "8")
+    tm3 = L.qc_tmodel(h3, eri3, True, "8", "probe")
+    tm3.extra["symbols"] = "+,-,Z"
+    for tm, algo0, jw, seq in ((tm1, "qr", False, [1, 0]), (tm2, "Hopcroft-Karp", True, [1, 0]), (tm3, "Hopcroft-Karp", True, [1])):
+        h0 = tm.dense_h()
+        mpo = Mpo(tm.fresh_model(), algo=algo0)
+        jw_eff = jw and jw_effective(tm)
+        F = np.eye(tm.dim)
+        replay = dict(part="B1-probe", model=tm.describe(), jw=jw, algo0=algo0, seq=seq)
+        ok = True
+        for i in seq:
+            F = L.swap_matrix(tm.dims, i, jw) @ F
+            nb = list(mpo.model.basis)
+            nb[i], nb[i + 1] = nb[i + 1], nb[i]
+            try:
+                mpo.try_swap_site(Model(nb, mpo.model.ham_terms), jw)
+            except Exception as e:
+                run.violation(swap_exception_signature(e, mpo, algo0, jw_eff) or "try_swap_site:raises",
+                              dict(replay, error=repr(e)[:300], failing_swap=i))
+                ok = False
+                break
+        if ok:
+            hn = mpo.todense()
+            d = absmax(hn - F @ h0 @ F.T)
+            if d > dense_tol(h0, 64) * 8:
+                Pp = np.eye(tm.dim)
+                for i in seq:
+                    Pp = L.swap_matrix(tm.dims, i, False) @ Pp
+                if jw and jw_class(tm) and absmax(hn - Pp @ h0 @ Pp.T) <= dense_tol(h0, 64) * 8:
+                    run.violation(SIG_D16, dict(replay, err_operator_vs_fermionic_swap=d, err_operator_vs_plain_swap=absmax(hn - Pp @ h0 @ Pp.T),
+                                                where="Mpo.try_swap_site(new_model, swap_jw=True) on Mpo(Model(*qc_model(...)))"))
+                else:
+                    run.violation(f"try_swap_site:dense:jw={jw}:probe", dict(replay, err=d))
+        run.count("B1:probe")
+
+
 # ======================================================================================= part B1
 def check_mpo_swaps(run, rng, kind):
     tm, jw_ok = gen_swap_model(rng, kind)
@@ -740,6 +797,8 @@ def search(run, rng, quick):
         evals += 1
     # B1 / B2 / B3
     kinds = ["qc", "qc", "qc-sigma", "qc-sigma", "spin", "spin-u1", "eph", "eph", "eph-2qn"]
+    probe_swap_sequences(run)
+    evals += 3
     nb1 = 36 if quick else 400
     for it in range(nb1):
         note(check_mpo_swaps(run, rng, kinds[it % len(kinds)]))
